@@ -105,7 +105,11 @@ package quickfix
 // sequence number gates (C01): nil iff MsgSeqNum is present, an integer, and not below / not above the expected number
 //@ spec seqok(msg *Message) bool = fhas(msg.Header.FieldMap, 34) && isint(fval(msg.Header.FieldMap, 34))
 //@ func (s *session) checkTargetTooLow [C01,C06]
-//@   requires msgok(msg) && s.store != nil
+//@   requires @maps msg != nil && mapsok(msg)
+//@   requires @hdr fmvals(msg.Header.FieldMap)
+//@   requires @body fmvals(msg.Body.FieldMap)
+//@   requires @trl fmvals(msg.Trailer.FieldMap)
+//@   requires @store s.store != nil
 //@   ensures @ok (result == nil) <==> (seqok(msg) && fint(msg.Header.FieldMap, 34) >= s.store.#T)
 //@   ensures @missing !fhas(msg.Header.FieldMap, 34) ==> mre(result, 1, 34)
 //@   ensures @malformed fhas(msg.Header.FieldMap, 34) && !isint(fval(msg.Header.FieldMap, 34)) ==> mre(result, 6, 34)
@@ -113,7 +117,11 @@ package quickfix
 //@   modifies fresh H.quickfix.messageRejectError.*, fresh P.quickfix.Tag, fresh H.quickfix.targetTooLow.*, fresh P.quickfix.FIXInt
 
 //@ func (s *session) checkTargetTooHigh [C01,C04,C06]
-//@   requires msgok(msg) && s.store != nil
+//@   requires @maps msg != nil && mapsok(msg)
+//@   requires @hdr fmvals(msg.Header.FieldMap)
+//@   requires @body fmvals(msg.Body.FieldMap)
+//@   requires @trl fmvals(msg.Trailer.FieldMap)
+//@   requires @store s.store != nil
 //@   ensures @ok (result == nil) <==> (seqok(msg) && fint(msg.Header.FieldMap, 34) <= s.store.#T)
 //@   ensures @missing !fhas(msg.Header.FieldMap, 34) ==> mre(result, 1, 34)
 //@   ensures @malformed fhas(msg.Header.FieldMap, 34) && !isint(fval(msg.Header.FieldMap, 34)) ==> mre(result, 6, 34)
@@ -672,3 +680,41 @@ package quickfix
 //@   ensures @sess sessfull(s) && s.State == old(s.State) && s.messageOut == old(s.messageOut)
 //@   ensures @nodelivery s.application.#n == old(s.application.#n)
 //@   ensures @target (s.store.#T == old(s.store.#T) && s.store.#R == old(s.store.#R)) || s.store.#R > old(s.store.#R)
+
+// handleLogon: a received Logon (request or response). C07: the store is reset only when ResetOnLogon applies (acceptor)
+// or the Logon carries ResetSeqNumFlag=Y that we did not ask for ourselves; C01: accepted means the expected number
+// moved on by one
+//@ func (s *session) handleLogon [C01,C06,C07,C08]
+//@   requires @sess sessfull(s)
+//@   requires @bound s.store.#T < MaxInt64
+//@   requires @msg msgok(msg)
+//@   requires @logon islogon(msg)
+//@   atcall MessageStore.Reset @agreed (!s.InitiateLogon && s.ResetOnLogon) || (fhas(msg.Body.FieldMap, 141) && onebyte(fval(msg.Body.FieldMap, 141), 89) && !s.sentReset)
+//@   ensures @sess sessfull(s) && s.State == old(s.State) && s.messageOut == old(s.messageOut)
+//@   ensures @nodelivery s.application.#n == old(s.application.#n)
+//@   ensures @mono (s.store.#T >= old(s.store.#T) && s.store.#R == old(s.store.#R)) || s.store.#R > old(s.store.#R)
+//@   ensures @accepted result == nil && s.store.#R == old(s.store.#R) ==> s.store.#T == wrap64(old(s.store.#T) + 1)
+//@   ensures @continuity !s.RefreshOnLogon && !s.ResetOnLogon && !(fhas(msg.Body.FieldMap, 141) && onebyte(fval(msg.Body.FieldMap, 141), 89)) && s.InitiateLogon ==> s.store.#R == old(s.store.#R)
+//@   ensures @msgmaps mapsok(msg)
+//@   ensures @msghdr fmvals(msg.Header.FieldMap)
+//@   ensures @msgbody fmvals(msg.Body.FieldMap)
+//@   ensures @msgtrl fmvals(msg.Trailer.FieldMap)
+
+//@ func (state inSession) FixMsgIn [C01,C04,C06,C07,C08,C20]
+//@   requires @sess sessfull(session)
+//@   requires @bound session.store.#T < MaxInt64
+//@   requires @msg msgok(msg)
+//@   ensures @next result != nil && stok(result)
+//@   ensures @sess sessfull(session) && session.State == old(session.State)
+//@   ensures @once session.application.#n == old(session.application.#n) || (session.application.#n == old(session.application.#n) + 1 && ((session.store.#T == wrap64(old(session.store.#T) + 1) && session.store.#R == old(session.store.#R)) || result is latentState))
+//@   ensures @mono (session.store.#T >= old(session.store.#T) && session.store.#R == old(session.store.#R)) || session.store.#R > old(session.store.#R)
+
+// the gap fill sent when the peer's NextExpectedMsgSeqNum (789) asks for it: stated, unverified contract (the by-value
+// message parameter is outside the specification language); listed as an assumption in the evidence
+//@ func (s *session) generateSequenceReset [C03]
+//@   trusted
+//@   requires @sess sessfull(s)
+//@   ensures @sess sessfull(s) && s.State == old(s.State) && s.messageOut == old(s.messageOut)
+//@   ensures @store s.store.#T == old(s.store.#T) && s.store.#S == old(s.store.#S) && s.store.#R == old(s.store.#R)
+//@   ensures @nodelivery s.application.#n == old(s.application.#n)
+//@   modifies heap Gh.chan.sent, s.toSend, s.toSend[*], fresh E.sl.uint8, heap E.quickfix.Tag, heap H.quickfix.TagValue.*, fresh E.uint8, fresh H.quickfix.Message.*, fresh H.quickfix.FieldMap.*, fresh H.quickfix.tagSort.*, fresh MH.quickfix.Tag.quickfix.field, fresh H.bytes.Buffer.*, fresh H.sync.RWMutex.*, fresh H.sync.Mutex.*, fresh H.time.Time.*, fresh H.quickfix.FIXUTCTimestamp.*
